@@ -55,6 +55,7 @@ type loopInfo struct {
 	freshNames map[string]bool
 	// range-over-func pseudo loop: the call instruction `it(yield)`; names are looked up before it in its block
 	rfCall ssa.Instruction
+	extra  map[string]sval // engine-provided ghost names usable in the invariants (yielderrs)
 }
 
 // ---------------------------------------------------------------- CFG helpers
